@@ -2,6 +2,7 @@ package lib
 
 import (
 	"bytes"
+	"context"
 	"crypto/sha256"
 	"encoding/hex"
 	"encoding/json"
@@ -10,6 +11,7 @@ import (
 	"os/exec"
 	"path/filepath"
 	"sort"
+	"strconv"
 	"strings"
 	"time"
 )
@@ -47,6 +49,10 @@ type Prop struct {
 	MObs func(op string) bool
 	// Fixed cases that always run first (regressions / witnesses of repaired defects).
 	Fixed func(tier string) []Case
+	// FeedImpl: trace validation. The driver receives `op ## impl-output` for every op, so the model can read
+	// which nondeterministic/background action the implementation actually took (and must re-derive everything
+	// it can: the answer is compared with the implementation's output as usual).
+	FeedImpl bool
 	// Extra lets a property add its own evidence keys.
 	Extra func() map[string]any
 }
@@ -61,7 +67,7 @@ type Env struct {
 
 type modelLine struct {
 	model, spec, kf string
-	hasSpec        bool
+	hasSpec         bool
 }
 
 func parseModel(s string) modelLine {
@@ -84,20 +90,26 @@ func parseModel(s string) modelLine {
 }
 
 // RunDriver pipes the cases to the Lean driver and returns per-case model output lines.
-func RunDriver(driver string, cases []Case) ([][]string, error) {
+func RunDriver(driver string, cases []Case, impls ...[][]string) ([][]string, error) {
 	var in bytes.Buffer
-	for _, c := range cases {
+	for ci, c := range cases {
 		in.WriteString(c.Header)
 		in.WriteByte('\n')
-		for _, o := range c.Ops {
+		for oi, o := range c.Ops {
 			if strings.HasPrefix(o, "M ") || strings.ContainsAny(o, "\n\r") {
 				return nil, fmt.Errorf("illegal op line %q", o)
 			}
 			in.WriteString(o)
+			if len(impls) == 1 {
+				in.WriteString(" ## ")
+				in.WriteString(strings.NewReplacer("\n", " ", "\r", " ").Replace(impls[0][ci][oi]))
+			}
 			in.WriteByte('\n')
 		}
 	}
-	cmd := exec.Command(driver)
+	ctx, cancel := context.WithTimeout(context.Background(), 15*time.Minute)
+	defer cancel()
+	cmd := exec.CommandContext(ctx, driver)
 	cmd.Stdin = &in
 	var out, errb bytes.Buffer
 	cmd.Stdout = &out
@@ -203,7 +215,13 @@ func judge(p *Prop, c Case, impl, model []string) verdict {
 
 func evalCase(p *Prop, env *Env, c Case) (verdict, []string, []string, error) {
 	impl := SafeImpl(p, c)
-	model, err := RunDriver(env.Driver, []Case{c})
+	var model [][]string
+	var err error
+	if p.FeedImpl {
+		model, err = RunDriver(env.Driver, []Case{c}, [][]string{impl})
+	} else {
+		model, err = RunDriver(env.Driver, []Case{c})
+	}
 	if err != nil {
 		return verdict{}, impl, nil, err
 	}
@@ -317,6 +335,9 @@ func Run(p *Prop, env *Env) int {
 	cases = append(cases, loadCorpus(env, p.ID)...)
 	nfixed := len(cases)
 	n := p.NumCases(env.Tier)
+	if v, err := strconv.Atoi(os.Getenv("VERIF_MAXCASES")); err == nil && v >= 0 && v < n {
+		n = v // debugging aid only
+	}
 	for i := 0; i < n; i++ {
 		cases = append(cases, p.Gen(rng.Fork(), env.Tier, i))
 	}
@@ -324,8 +345,17 @@ func Run(p *Prop, env *Env) int {
 	impls := make([][]string, len(cases))
 	for i, c := range cases {
 		impls[i] = SafeImpl(p, c)
+		if os.Getenv("VERIF_DEBUG") != "" {
+			fmt.Fprintf(os.Stderr, "case %d %s: %d ops, last=%q\n", i, c.Header, len(c.Ops), impls[i][len(impls[i])-1])
+		}
 	}
-	models, err := RunDriver(env.Driver, cases)
+	var models [][]string
+	var err error
+	if p.FeedImpl {
+		models, err = RunDriver(env.Driver, cases, impls)
+	} else {
+		models, err = RunDriver(env.Driver, cases)
+	}
 	if err != nil {
 		fmt.Fprintln(os.Stderr, "driver failure:", err)
 		rp := Replay{Property: p.ID, Seed: env.Seed, Tier: env.Tier, Kind: "no-failing-input-found",
@@ -378,7 +408,7 @@ func Run(p *Prop, env *Env) int {
 				}{c, v}
 			}
 		}
-		if i < nfixed+2 && len(res.Samples) < 3 {
+		if (i == 0 || i == nfixed || i == nfixed+1) && len(res.Samples) < 3 {
 			ops := c.Ops
 			if len(ops) > 12 {
 				ops = ops[:12]
